@@ -40,7 +40,7 @@ func (p *Path) eqValue(a, b Value) *Term {
 		return r
 	case PtrV:
 		y := b.(PtrV)
-		return BoolT(ptrEq(x, y))
+		return p.ptrEqTerm(x, y)
 	case StrV:
 		y := b.(StrV)
 		if len(x.B) != len(y.B) {
@@ -90,6 +90,26 @@ func (p *Path) eqValue(a, b Value) *Term {
 	panic(fmt.Sprintf("engine: eqValue %T", a))
 }
 
+func nilTerm(x PtrV) *Term {
+	if x.O == nil {
+		return tTrue
+	}
+	if x.Nil != nil {
+		return x.Nil
+	}
+	return tFalse
+}
+
+func (p *Path) ptrEqTerm(x, y PtrV) *Term {
+	tb := p.tb
+	xn, yn := nilTerm(x), nilTerm(y)
+	same := tFalse
+	if x.O != nil && y.O != nil && ptrEq(PtrV{O: x.O, Path: x.Path}, PtrV{O: y.O, Path: y.Path}) {
+		same = tTrue
+	}
+	return tb.Or(tb.And(xn, yn), tb.And(tb.And(tb.Not(xn), tb.Not(yn)), same))
+}
+
 // ---- binary operators ----
 
 func (p *Path) shiftCount(n *Term, w int) *Term {
@@ -106,8 +126,101 @@ func (p *Path) shiftCount(n *Term, w int) *Term {
 	return p.tb.Ite(big, BVConst(uint64(w), w), p.tb.Resize(n, w, false))
 }
 
+// triCmp folds "tri OP const" for a three-way comparison result.
+func (p *Path) triCmp(op token.Token, t *Term, c int64) (*Term, bool) {
+	tb := p.tb
+	lt, gt := t.triLt, t.triGt
+	eq := tb.And(tb.Not(lt), tb.Not(gt))
+	val := func(v int64) *Term { // t == v
+		switch v {
+		case -1:
+			return lt
+		case 0:
+			return eq
+		case 1:
+			return gt
+		}
+		return tFalse
+	}
+	switch op {
+	case token.EQL:
+		return val(c), true
+	case token.NEQ:
+		return tb.Not(val(c)), true
+	case token.LSS: // t < c
+		switch {
+		case c <= -1:
+			return tFalse, true
+		case c == 0:
+			return lt, true
+		case c == 1:
+			return tb.Not(gt), true
+		}
+		return tTrue, true
+	case token.LEQ:
+		switch {
+		case c < -1:
+			return tFalse, true
+		case c == -1:
+			return lt, true
+		case c == 0:
+			return tb.Not(gt), true
+		}
+		return tTrue, true
+	case token.GTR:
+		switch {
+		case c >= 1:
+			return tFalse, true
+		case c == 0:
+			return gt, true
+		case c == -1:
+			return tb.Not(lt), true
+		}
+		return tTrue, true
+	case token.GEQ:
+		switch {
+		case c > 1:
+			return tFalse, true
+		case c == 1:
+			return gt, true
+		case c == 0:
+			return tb.Not(lt), true
+		}
+		return tTrue, true
+	}
+	return nil, false
+}
+
+func flipCmp(op token.Token) token.Token {
+	switch op {
+	case token.LSS:
+		return token.GTR
+	case token.LEQ:
+		return token.GEQ
+	case token.GTR:
+		return token.LSS
+	case token.GEQ:
+		return token.LEQ
+	}
+	return op
+}
+
 func (p *Path) binop(fr *frame, op token.Token, xt types.Type, x, y Value, yt types.Type, pos token.Pos) Value {
 	tb := p.tb
+	if a, ok := x.(*Term); ok {
+		if b, ok := y.(*Term); ok && a.S.K == KBV && a.S.W == 64 {
+			if a.triLt != nil && b.c {
+				if r, ok := p.triCmp(op, a, sext64(b.u, 64)); ok {
+					return r
+				}
+			}
+			if b.triLt != nil && a.c {
+				if r, ok := p.triCmp(flipCmp(op), b, sext64(a.u, 64)); ok {
+					return r
+				}
+			}
+		}
+	}
 	switch op {
 	case token.EQL:
 		return p.eqValue(x, y)
@@ -444,7 +557,7 @@ func (p *Path) builtin(fr *frame, b *ssa.Builtin, call *ssa.CallCommon, args []V
 	case "recover":
 		return p.doRecover(fr)
 	case "ssa:wrapnilchk":
-		if ptr, ok := args[0].(PtrV); ok && ptr.IsNil() {
+		if ptr, ok := args[0].(PtrV); ok && p.rp(fr, ptr, pos).IsNil() {
 			p.goPanic(fr, pos, "value method called using nil pointer")
 		}
 		return args[0]
